@@ -6,7 +6,7 @@ import PsModel.Spec.C08
 `C08 (<L|N> (funcs (dec ...) ...) (steps ...))`
 * dec   = `(e|m|w key <filter|none> ((k val) ...))`
 * val   = `none | (i n) | (s str) | (b 0|1) | (d (k val) ...)`
-* filter= `(cmp op key sub|- val) | (and f g) | (or f g) | (not f) | (name key) | (true)`   (python semantics, an
+* filter= `(cmp op key sub|- val) | (and f g) | (or f g) | (not f) | (name key) | (name key sub) | (true)`   (python semantics, an
           exception makes the whole filter raise)
 * step  = `(f e type data) | (f m sub topic payload qos retain json|-) | (f w id isJson body form)`
         | `(t i)` | `(drain)` | `(em a b k ek name kw mode)` | `(fin a b k)`
@@ -23,6 +23,7 @@ inductive FExpr where
   | cmp (op : CmpOp) (key : String) (sub : Option String) (lit : Val)
   | and (a b : FExpr) | or (a b : FExpr) | not (a : FExpr)
   | name (key : String)
+  | nameSub (key sub : String)
   | tt
 
 def valGet : Val → String → Option Val
@@ -92,6 +93,10 @@ def FExpr.eval : FExpr → Dict → Option Bool
     | some false => y.eval a
   | .not x, a => (x.eval a).map (!·)
   | .name key, a => (a.get key).map truthy
+  | .nameSub key sk, a =>
+    match a.get key with
+    | Option.none => Option.none                       -- NameError
+    | some v => if isDict v then (valGet v sk).map truthy else Option.none   -- KeyError / TypeError
   | .tt, _ => some true
 
 /-! ### parsing -/
@@ -129,6 +134,7 @@ partial def fexpr? : Sexp → Option FExpr
   | .list [.atom "or", a, b] => do pure (.or (← fexpr? a) (← fexpr? b))
   | .list [.atom "not", a] => do pure (.not (← fexpr? a))
   | .list [.atom "name", .atom k] => some (.name k)
+  | .list [.atom "name", .atom k, .atom sk] => some (.nameSub k sk)
   | .list [.atom "true"] => some .tt
   | _ => Option.none
 
